@@ -269,7 +269,7 @@ pub fn execute(t: &Trace, with_child: bool, passthrough_child: bool) -> C09Out {
         }
     }
     // fixpoint: load under another key, serialize again; also after a tag round trip
-    for variant in 0..3u8 {
+    for variant in 0..4u8 {
         let key = kr.next();
         let b = b0.clone();
         let opt = w.knobs.optimize;
@@ -283,6 +283,11 @@ pub fn execute(t: &Trace, with_child: bool, passthrough_child: bool) -> C09Out {
                 let tv: Vec<&str> = tags.iter().map(|s| s.as_str()).collect();
                 seams::track(|| e.use_tags(&tv));
                 seams::track(|| e.use_tags(&[]));
+            }
+            if variant == 3 {
+                let tv: Vec<&str> = tags.iter().map(|s| s.as_str()).collect();
+                seams::track(|| e.enable_tags(&tv));
+                seams::track(|| e.disable_tags(&tv));
             }
             e.serialize_raw().map_err(|e| format!("{:?}", e))
         });
@@ -298,7 +303,7 @@ pub fn execute(t: &Trace, with_child: bool, passthrough_child: bool) -> C09Out {
             }
             Some(Ok(b2)) => {
                 if b2 != b0 {
-                    out.violation = Some(viol("reload-fixpoint", &format!("bytes reload variant {} (0 plain, 1 other optimise knob, 2 tag round trip)", variant), first_diff(&b2, &b0), "identical buffers".into()));
+                    out.violation = Some(viol("reload-fixpoint", &format!("bytes reload variant {} (0 plain, 1 other optimise knob, 2 tag round trip, 3 enable then disable all tags)", variant), first_diff(&b2, &b0), "identical buffers".into()));
                     return out;
                 }
             }
@@ -385,6 +390,62 @@ pub fn execute(t: &Trace, with_child: bool, passthrough_child: bool) -> C09Out {
             }
             None => {
                 out.violation = Some(viol("no-panic", "panic while reloading tagged", last_panic(), "no panic".into()));
+                return out;
+            }
+        }
+    }
+    // load histories on an engine that keeps its tags enabled: a rejected load, or a load of an image
+    // without any tagged rule, in between must leave nothing behind -- loading the tagged image
+    // afterwards reproduces it byte for byte
+    for hist in 0..3u8 {
+        let b = b1.clone();
+        let tg = tags.clone();
+        let opt = w.knobs.optimize;
+        let r = on_thread(Some(kr.next()), kr.next(), hist, move || {
+            let mut e = Engine::new(opt);
+            let tv: Vec<&str> = tg.iter().map(|s| s.as_str()).collect();
+            e.use_tags(&tv);
+            match hist {
+                0 => {
+                    if seams::track(|| e.deserialize(&b[..b.len() / 2])).is_ok() {
+                        return Err("half an image was accepted".to_string());
+                    }
+                }
+                1 => {
+                    let empty = Engine::new(opt).serialize_raw().map_err(|e| format!("{:?}", e))?;
+                    if seams::track(|| e.deserialize(&empty)).is_err() {
+                        return Err("deserialize of an empty engine's image failed".to_string());
+                    }
+                }
+                _ => {
+                    if seams::track(|| e.deserialize(&b)).is_err() {
+                        return Err("deserialize failed".to_string());
+                    }
+                    if seams::track(|| e.deserialize(&[])).is_ok() {
+                        return Err("an empty buffer was accepted".to_string());
+                    }
+                    e.enable_tags(&[]);
+                    return e.serialize_raw().map_err(|e| format!("{:?}", e));
+                }
+            }
+            if seams::track(|| e.deserialize(&b)).is_err() {
+                return Err("deserialize failed".to_string());
+            }
+            e.serialize_raw().map_err(|e| format!("{:?}", e))
+        });
+        out.reloads += 1;
+        match r {
+            Some(Ok(b2)) if b2 == b1 => {}
+            Some(Ok(b2)) => {
+                out.violation = Some(viol("reload-fixpoint", &format!("bytes load history {} (0: rejected load, then the tagged image; 1: image of an empty engine, then the tagged image; 2: the tagged image, a rejected load, enable_tags of nothing) on an engine with tags enabled vs the tagged build", hist), first_diff(&b2, &b1), "identical buffers".into()));
+                return out;
+            }
+            Some(Err(e)) => {
+                out.violation = Some(viol("reload-fixpoint", "load history error", e, "Ok".into()));
+                return out;
+            }
+            None => {
+                out.violation = Some(viol("no-panic", "panic during a load history", last_panic(), "no panic".into()));
                 return out;
             }
         }
